@@ -224,9 +224,13 @@ def r03d(ctx):
                      "and no break (the loop ends only when the cell reports no further progress)")
     q = m.need_class("EditDistance")
     tb = m.method(q, "tighten_bounds")
-    calls = [c for c in walk_no_nested(tb.node) if isinstance(c, ast.Call) and self_attr(c.func) == "_best_match"]
+    from ..astx import class_helpers
+    bm_q = m.method(q, "_best_match")
+    scope = [g for g in class_helpers(m, q, tb) if g.node.name not in ("edits", "bounds", "_best_match", "_cleanup", "is_complete")]
+    calls = [(g, c) for g in scope for c in walk_no_nested(g.node) if isinstance(c, ast.Call) and self_attr(c.func) == "_best_match"]
     ctx.floor("R03d", len(calls), 1, "_best_match calls in EditDistance.tighten_bounds")
-    for c in calls:
+    for g, c in calls:
+        where = f"EditDistance.{g.node.name}"
         st = c
         while st is not None and not isinstance(st, ast.stmt):
             st = parent(st)
@@ -248,10 +252,10 @@ def r03d(ctx):
             elif cell and f"{cell}.tighten_bounds()".replace(" ", "") in t:
                 why = f"the refinement loop's test `{norm(w.test, 70)}` has extra conditions, so it can stop before the cell is definitive"
         if good is not None:
-            ctx.proved("R03d", tb.file, "EditDistance.tighten_bounds", c, "cell refined before accumulation",
+            ctx.proved("R03d", tb.file, where, c, "cell refined before accumulation",
                        f"`while {cell}.tighten_bounds()` runs to exhaustion before _best_match reads the cell's upper bound")
         else:
-            ctx.violation("R03d", tb.file, "EditDistance.tighten_bounds", c, "cell refined before accumulation",
+            ctx.violation("R03d", tb.file, where, c, "cell refined before accumulation",
                           f"_best_match adds {cell}.bounds().upper_bound into the cumulative cost, but {why}: a non-final "
                           f"upper bound is accumulated, so the reported list cost differs from the sum of the final "
                           f"sub-edit costs (and may depend on status settings)")
